@@ -928,7 +928,7 @@ where
                                 return;
                             }
 
-                            if inner.done {
+                            if inner.done && inner.complete {
                                 break;
                             }
                         }
